@@ -110,7 +110,7 @@ func gen(rng *rand.Rand, idx int) tcase {
 	}
 	rng.Shuffle(len(c.Secrets), func(i, j int) { c.Secrets[i], c.Secrets[j] = c.Secrets[j], c.Secrets[i] })
 	// cache
-	kinds := []string{"none", "none", "empty", "partial", "complete", "complete", "stale-complete", "invalid-json", "null-entry", "no-secret-field", "empty-key", "read-error", "wrong-type", "version-string", "value-number", "entry-is-array"}
+	kinds := []string{"none", "none", "empty", "partial", "complete", "complete", "stale-complete", "invalid-json", "null-entry", "no-secret-field", "empty-key", "read-error", "wrong-type", "version-string", "value-number", "entry-is-array", "null-undeclared"}
 	c.Cache = kinds[rng.IntN(len(kinds))]
 	doc := map[string]*cacheEntry{}
 	for _, d := range decl {
@@ -133,6 +133,11 @@ func gen(rng *rand.Rand, idx int) tcase {
 	case "invalid-json":
 		b, _ := json.Marshal(doc)
 		c.CacheDoc = string(b[:len(b)/2])
+	case "null-undeclared":
+		// every declared secret has a good entry; an entry under a name nobody declares is null
+		doc["ghost/undeclared"] = nil
+		b, _ := json.Marshal(doc)
+		c.CacheDoc = string(b)
 	case "null-entry":
 		doc[decl[0]] = nil
 		b, _ := json.Marshal(doc)
@@ -261,10 +266,11 @@ func TestC10(t *testing.T) {
 	stop()
 	if r.Only < 0 {
 		realClientOddReplies(t, r, tmp)
+		realClientRetryAfter(t, r)
 		bigFileCache(t, r, tmp)
 		uncleanStructPrefixes(t, r)
 	}
-	r.Require("big_file_cache_restarts", "struct_prefix_spellings", "real_client_odd_replies", "returned_nil", "returned_error_ctx", "complete_cache_no_request", "retry_rounds", "fileclient_missing", "fileclient_entries_without_value", "misconfig", "cache_ignored_as_invalid")
+	r.Require("retry_after_cases", "undeclared_null_entry_cases", "big_file_cache_restarts", "struct_prefix_spellings", "real_client_odd_replies", "returned_nil", "returned_error_ctx", "complete_cache_no_request", "retry_rounds", "fileclient_missing", "fileclient_entries_without_value", "misconfig", "cache_ignored_as_invalid")
 	r.Rule("seeded cases = declared names (1-6 of a 6-name pool, with duplicates, via Secrets and/or a run-time generated tagged struct) x cache content (none, empty, partial, complete, stale, invalid JSON, null entry, entry without secret, empty key, wrong JSON type, one entry with a wrongly typed field, read error) x per-secret service script (ok, fail k times, fail k times with the client's own timeout error, fail until T, hang until T, slow, never; failures with and without the context error wrapped) x expiry age {0, 1h, 30d} with old/zero/future cache stamps x context (background, deadline, cancel at T) x client kind (scripted / real FileClient). Distinct = (cache kind, set of script modes, context kind, client kind, outcome)")
 }
 
@@ -488,6 +494,9 @@ func runCase(t *testing.T, r *evid.Run, c tcase, tmp string) {
 		if certainlyInvalid {
 			r.Count("cache_ignored_as_invalid", 1)
 		}
+		if c.Cache == "null-undeclared" {
+			r.Count("undeclared_null_entry_cases", 1)
+		}
 		// per-name request stats
 		got := map[string]time.Duration{} // name -> time of the successful reply
 		for _, q := range log {
@@ -552,7 +561,7 @@ func runCase(t *testing.T, r *evid.Run, c tcase, tmp string) {
 		}
 		if o.err == nil {
 			r.Count("returned_nil", 1)
-			if !allGot && c.Client != "file" {
+			if !allGot && c.Client != "file" && c.Cache != "null-undeclared" {
 				fail("returned-before-all-fetched", "NewStore returned nil before every needed secret had been fetched", map[string]any{"log": log, "needed": needed})
 				return
 			}
@@ -570,6 +579,12 @@ func runCase(t *testing.T, r *evid.Run, c tcase, tmp string) {
 				if pan != nil {
 					fail("declared-secret-without-value", fmt.Sprintf("NewStore succeeded but Secret(%q) panics: %v", d, pan), nil)
 					return
+				}
+				if c.Cache == "null-undeclared" && string(val) == string(cacheValue(d)) {
+					// (a cache that is good for every declared name and damaged elsewhere: both readings are
+					// within the property - what is not, is asking the service about the undeclared name)
+					r.Count("damaged_undeclared_entry_cases", 1)
+					continue
 				}
 				if string(val) != string(want) {
 					fail("declared-secret-wrong-value", fmt.Sprintf("Secret(%q) = %q, want %q (cache supplies it: %t)", d, val, want, cached[d]), nil)
@@ -822,4 +837,91 @@ func failKind(idx int, name string) error {
 		return io.ErrUnexpectedEOF
 	}
 	return fakesvc.ErrInjected
+}
+
+// realClientRetryAfter: the REAL network client (virtual time, scripted transport) against a service - or a
+// proxy in front of it - that sheds load: 503 / 429 with a Retry-After hint of several seconds. The pauses
+// between rounds stay the store's own ("at most a few seconds"), and when the caller's context ends NewStore
+// returns promptly, whatever the hint says.
+func realClientRetryAfter(t *testing.T, r *evid.Run) {
+	type rcase struct {
+		status, hint, sheds int
+		deadline            time.Duration // 0 = background
+	}
+	var cases []rcase
+	for _, st := range []int{503, 429} {
+		for _, hint := range []int{1, 4, 8, 30, 3600} {
+			cases = append(cases, rcase{st, hint, 1, 0}, rcase{st, hint, 3, 0}, rcase{st, hint, 1 << 30, 300 * time.Millisecond}, rcase{st, hint, 1 << 30, 7 * time.Second})
+		}
+	}
+	for ci, rc := range cases {
+		synctest.Test(t, func(t *testing.T) {
+			start := time.Now()
+			var mu sync.Mutex
+			var starts, ends []time.Duration
+			n := 0
+			do := func(req *http.Request) (*http.Response, error) {
+				mu.Lock()
+				n++
+				k := n
+				starts = append(starts, time.Since(start))
+				mu.Unlock()
+				defer func() { mu.Lock(); ends = append(ends, time.Since(start)); mu.Unlock() }()
+				if err := req.Context().Err(); err != nil {
+					return nil, err
+				}
+				if k <= rc.sheds {
+					h := http.Header{}
+					h.Set("Retry-After", fmt.Sprint(rc.hint))
+					h.Set("Content-Type", "text/plain")
+					return &http.Response{StatusCode: rc.status, Status: fmt.Sprint(rc.status), Header: h, Body: io.NopCloser(strings.NewReader("shedding load")), Request: req, Proto: "HTTP/1.1", ProtoMajor: 1, ProtoMinor: 1}, nil
+				}
+				b, _ := json.Marshal(api.SecretValue{Value: svcValue("alpha"), Version: 3})
+				h := http.Header{}
+				h.Set("Content-Type", "application/json")
+				return &http.Response{StatusCode: 200, Status: "200", Header: h, Body: io.NopCloser(bytes.NewReader(b)), Request: req, Proto: "HTTP/1.1", ProtoMajor: 1, ProtoMinor: 1}, nil
+			}
+			ctx := context.Background()
+			if rc.deadline > 0 {
+				var cancel context.CancelFunc
+				ctx, cancel = context.WithTimeout(ctx, rc.deadline)
+				defer cancel()
+			}
+			st, err := setec.NewStore(ctx, setec.StoreConfig{Client: setec.Client{Server: "http://setec.verif", DoHTTP: do}, Secrets: []string{"alpha"}, PollInterval: -1, Logf: func(string, ...any) {}})
+			at := time.Since(start)
+			r.Eval(1)
+			r.Count("retry_after_cases", 1)
+			r.Distinct(fmt.Sprintf("real client, %d with Retry-After, deadline=%t", rc.status, rc.deadline > 0))
+			what := fmt.Sprintf("retry-after case %d (real client; the first %d replies are %d with Retry-After: %d; caller deadline %v)", ci, min(rc.sheds, 99), rc.status, rc.hint, rc.deadline)
+			mu.Lock()
+			defer mu.Unlock()
+			for i := 1; i < len(starts) && i-1 < len(ends); i++ {
+				if gap := starts[i] - ends[i-1]; gap > 5*time.Second {
+					r.Violation("pause-too-long", -1, fmt.Sprintf("%s: NewStore paused %v between the reply to request #%d and request #%d", what, gap, i, i+1), nil)
+					return
+				}
+			}
+			if rc.deadline > 0 {
+				if err == nil {
+					r.Violation("returned-before-all-fetched", -1, what+": NewStore succeeded although the service never delivered the value", nil)
+				} else if at < rc.deadline {
+					r.Violation("error-while-context-alive", -1, fmt.Sprintf("%s: NewStore gave up at %v with %v", what, at, err), nil)
+				} else if at > rc.deadline+100*time.Millisecond {
+					r.Violation("late-after-context-end", -1, fmt.Sprintf("%s: the context ended at %v but NewStore returned only at %v", what, rc.deadline, at), nil)
+				}
+				return
+			}
+			if err != nil {
+				r.Violation("error-while-context-alive", -1, fmt.Sprintf("%s: NewStore gave up: %v", what, err), nil)
+				return
+			}
+			defer st.Close()
+			if got := st.Secret("alpha").Get(); !bytes.Equal(got, svcValue("alpha")) {
+				r.Violation("declared-secret-wrong-value", -1, fmt.Sprintf("%s: alpha = %q", what, got), nil)
+			}
+			if at > time.Duration(rc.sheds)*5*time.Second+time.Second {
+				r.Violation("slow-progress", -1, fmt.Sprintf("%s: NewStore returned at %v", what, at), nil)
+			}
+		})
+	}
 }
